@@ -36,7 +36,7 @@ ASSUMPTIONS = ["pvm/ref/inet.py implements RFC 1071 and the pseudo-headers",
 REQUIRED = ["built", "fields_compared", "repacked", "ipv4_csums", "l4_csums",
             "icmp_csums", "odd_payloads", "even_payloads", "corpus_roundtrips",
             "ip_payloads_shorter_than_their_protocol_header",
-            "template_frames_roundtripped",
+            "template_frames_roundtripped", "library_chosen_identifications",
             "earlier_packets_rechecked",
             "v6_csums"]
 TIMEOUT = {"quick": 900, "thorough": 7200}
@@ -100,7 +100,9 @@ def build (kind, rng):
       e.type = ethertype
       e.payload = l3
   def ip4 (proto, l4, **kw):
-    ip = pkt.ipv4(tos=rint(rng, 8), id=rint(rng, 16),
+    # (a fifth of the datagrams leave the identification to the library)
+    if rng.random() >= 0.2: kw["id"] = rint(rng, 16)
+    ip = pkt.ipv4(tos=rint(rng, 8),
                   flags=rng.choice([0, 0, 2, 4, 6]), ttl=rint(rng, 8),
                   protocol=proto, srcip=addr4(rng), dstip=addr4(rng), **kw)
     ip.payload = l4
@@ -673,10 +675,12 @@ def plan (tier, seed):
   if tier == "quick":
     return ([dict(mode="built", per=400, sub=i) for i in range(14)] +
             [dict(mode="corpus", sub=0)] +
-            [dict(mode="template", per=600, sub=i) for i in range(2)])
+            [dict(mode="template", per=600, sub=i) for i in range(2)] +
+            [dict(mode="ids", n=140000, sub=0)])
   return ([dict(mode="built", per=9000, sub=i) for i in range(64)] +
           [dict(mode="corpus", sub=0)] +
-          [dict(mode="template", per=40000, sub=i) for i in range(16)])
+          [dict(mode="template", per=40000, sub=i) for i in range(16)] +
+          [dict(mode="ids", n=400000, sub=0)])
 
 
 def run (spec, rep):
@@ -684,6 +688,40 @@ def run (spec, rep):
     for name, raw in corpus.build():
       if name in CORPUS_SKIP: continue
       do_case(dict(mode="corpus", name=name, frame=raw), rep)
+    return
+  if spec["mode"] == "ids":
+    # Values the library picks itself: the IPv4 identification of a datagram
+    # built without one comes from a counter shared by every ipv4 object ever
+    # made in the process.  Across more than 2^16 constructions every one of
+    # them fits its field, and the datagrams around the wrap are encoded and
+    # decoded like any other.
+    pkt = P()
+    from pox.lib.addresses import IPAddr
+    seen = set()
+    for i in range(spec["n"]):
+      ip = pkt.ipv4(protocol=253, srcip=IPAddr("10.0.0.1"), dstip=IPAddr("10.0.0.2"))
+      rep.count("library_chosen_identifications")
+      v = ip.id
+      seen.add(v)
+      case = dict(mode="ids", i=i)
+      if not isinstance(v, int) or not 0 <= v <= 0xffff:
+        rep.violation("C14 ipv4: identification chosen by the library does not fit its field",
+                      "construction %d got id %r" % (i, v), case)
+        break
+      if v >= 0xfff0 or v <= 0x10 or i % 997 == 0:
+        try:
+          ip.payload = b"x" * (i % 5)
+          b = ip.pack()
+          q = pkt.ipv4(raw=b)
+          if q.id != v or q.pack() != b:
+            rep.violation("C14 ipv4: datagram with a library-chosen identification does not round-trip",
+                          "id %r" % (v,), case)
+            break
+        except Exception as e:
+          rep.violation("C14 ipv4: datagram with a library-chosen identification cannot be encoded (%s)"
+                        % type(e).__name__, "construction %d, id %r: %r" % (i, v, e), case)
+          break
+    rep.case(b"ids", nontrivial=True)
     return
   if spec["mode"] == "template":
     # the corpus-only protocols with their variable parts drawn per case
